@@ -1252,14 +1252,27 @@ pub fn enrich_in(p: SPacket, tam: u16, established: bool) -> (SPacket, bool) {
                 1 => {
                     // (crosses the 512-byte read step; every property a PUBLISH may carry)
                     payload.extend(std::iter::repeat(0x30u8).take(600));
-                    props.insert(0, Prop::byte(P_PAYLOAD_FORMAT, 1));
-                    props.push(Prop::u32(P_MESSAGE_EXPIRY, 0));
+                    // (a property other than User Property may appear once: whatever the scenario's own
+                    // packet already carries is left alone)
+                    let has = |props: &Vec<Prop>, id: u8| props.iter().any(|p| p.id == id);
+                    if !has(&props, P_PAYLOAD_FORMAT) {
+                        props.insert(0, Prop::byte(P_PAYLOAD_FORMAT, 1));
+                    }
+                    if !has(&props, P_MESSAGE_EXPIRY) {
+                        props.push(Prop::u32(P_MESSAGE_EXPIRY, 0));
+                    }
                     props.push(Prop::user("k", "1"));
-                    props.push(Prop::str(P_CONTENT_TYPE, "c/t"));
-                    props.push(Prop::str(P_RESPONSE_TOPIC, "r"));
+                    if !has(&props, P_CONTENT_TYPE) {
+                        props.push(Prop::str(P_CONTENT_TYPE, "c/t"));
+                    }
+                    if !has(&props, P_RESPONSE_TOPIC) {
+                        props.push(Prop::str(P_RESPONSE_TOPIC, "r"));
+                    }
                     props.push(Prop::user("k", "2"));
-                    props.push(Prop::bin(P_CORRELATION_DATA, &[0, 1, 2]));
-                    if tam >= 2 {
+                    if !has(&props, P_CORRELATION_DATA) {
+                        props.push(Prop::bin(P_CORRELATION_DATA, &[0, 1, 2]));
+                    }
+                    if tam >= 2 && !props.iter().any(|p| p.id == P_TOPIC_ALIAS) {
                         props.push(Prop::u16(P_TOPIC_ALIAS, 2));
                         est = true;
                     }
@@ -1269,7 +1282,7 @@ pub fn enrich_in(p: SPacket, tam: u16, established: bool) -> (SPacket, bool) {
                     retain = true;
                 }
                 _ => {
-                    if tam >= 2 && established {
+                    if tam >= 2 && established && !props.iter().any(|p| p.id == P_TOPIC_ALIAS) {
                         // the alias alone: a zero-length Topic Name is legal here
                         topic = String::new();
                         props.push(Prop::u16(P_TOPIC_ALIAS, 2));
